@@ -212,7 +212,15 @@ inductive Variant where
       `int` (in checking position the expected type must be `int`: the widening that
       `check_type_against` attempts on the checker's untyped result node raises) -/
   | allInts
+  /-- a variant whose own signature is ill-formed (`int @owned`, a non-type annotation, a type
+      constructor with the wrong number of arguments, an undefined name): looking it up
+      (`ctx.globals[def_id]`) parses the signature and raises *outside* the `suppress` -/
+  | invalid
   deriving Repr, Inhabited
+
+def Variant.isInvalid : Variant â†’ Bool
+  | .invalid => true
+  | _ => false
 
 /-- the type a literal argument gets under the hint `e` (`python_value_to_guppy_type`);
     `none` for non-literals -/
@@ -300,6 +308,7 @@ def attempt (v : Variant) (args : List Arg) (exp : Option Ty) : Option Outcome Ã
     match resolveSigs ss args exp with
     | some (j, o) => (some { o with inner := some j }, args)
     | none => (none, args)
+  | .invalid => (none, args)   -- not reached by `resolveR`, which stops at the lookup
   | .allInts =>
     if allIntsOk args then
       match exp with
@@ -326,6 +335,30 @@ where
       match attempt v args exp with
       | (some o, _) => some (i, o)
       | (none, _) => go rest (i + 1)
+
+/-- What a call of an overloaded function comes to. -/
+inductive Resolution where
+  | chosen (i : Nat) (o : Outcome)
+  /-- `_call_error`: `OverloadNoMatchError` -/
+  | noMatch
+  /-- the lookup of variant `i` raised its signature diagnostic; it propagates to the caller
+      exactly as for a direct call of that variant -/
+  | invalid (i : Nat)
+  deriving Repr, Inhabited
+
+/-- The loop including the lookup of each variant: an ill-formed variant that is *reached*
+    (no earlier variant accepted) aborts the resolution with its own diagnostic; variants
+    after the accepting one are never looked up. -/
+def resolveR (vs : List Variant) (args : List Arg) (exp : Option Ty) : Resolution :=
+  go vs 0
+where
+  go : List Variant â†’ Nat â†’ Resolution
+    | [], _ => .noMatch
+    | v :: rest, i =>
+      if v.isInvalid then .invalid i
+      else match attempt v args exp with
+        | (some o, _) => .chosen i o
+        | (none, _) => go rest (i + 1)
 
 /-- **The loop before the fix (D8)**: the same argument objects are reused, so what a
     failed attempt left behind is what the next variant sees. -/
